@@ -337,6 +337,8 @@ def r2_lossless(rep, src, A):
     def run(dec):
         it = strlang.Interp(dec, cls='BaseVersion')
         env = {'self': selfobj}
+        if fupd.node.args.kwarg is not None:
+            env[fupd.node.args.kwarg.arg] = {}          # called without keyword arguments: the stored components
         for st in fupd.node.body:
             if isinstance(st, ast.Assign) and len(st.targets) == 1 and isinstance(st.targets[0], ast.Attribute) \
                     and norm(st.targets[0].value) == 'self':
@@ -445,7 +447,13 @@ def r3_check_then_commit(rep, src, A):
              'debian_version': '_BaseVersion__debian_revision'}
     why = None
     n_cases = 0
-    for attr, private in comps.items():
+    # (the design "store the component, recompose, restore on failure".  A __setattr__ that stores nothing before the recomposition
+    # has validated the new version needs no rollback; the interpretation with the real recomposition below decides it either way.)
+    f2_in, _i2 = normalize.inline_helpers(f2, depth=1, skip=('_update_full_version', '_set_full_version'))
+    stores_first = any((isinstance(n_, ast.Call) and norm(n_.func) == 'setattr' and n_.args and norm(n_.args[0]) == 'self')
+                       or (isinstance(n_, ast.Attribute) and isinstance(n_.ctx, ast.Store) and norm(n_.value) == 'self' and n_.attr.lstrip('_').split('__')[-1] in
+                           ('epoch', 'upstream_version', 'debian_revision')) for n_ in ast.walk(f2_in))
+    for attr, private in (comps.items() if stores_first else ()):
       for newval in (9, 0):         # 0: a value that is false but not None is converted and stored like any other
         for fail_first in (True, False):
             calls = []
@@ -482,7 +490,9 @@ def r3_check_then_commit(rep, src, A):
                     why = why or 'an accepted assignment of %s = %r leaves %r' % (attr, newval, {k: v for k, v in after.items() if k.startswith('_BaseVersion__')})
                 elif len(calls) != 1 or calls[0].get(private) != str(newval):
                     why = why or 'the full version is not recomposed after %s has been stored' % attr
-    if why is None:
+    if not stores_first:
+        rep.ok('C14.R3', f2.site, 'rollback restores saved value', 'no component is stored before the recomposed version has been validated: nothing to roll back', nontrivial=False)
+    elif why is None:
         rep.ok('C14.R3', f2.site, 'rollback restores saved value', '%d interpreted assignments: refused → ValueError and unchanged object, accepted → str(value) stored, recomposed once' % n_cases)
     else:
         rep.fail('C14.R3', f2.site, 'rollback restores saved value', 'component assignment is not rolled back on failure: ' + why, where=f2.where)
